@@ -43,10 +43,9 @@ var alphabet = []alphaLine{
 const numRejectedInAlphabet = 4
 
 type smallFile struct {
-	Idx   []int // indices into alphabet
-	Name  string
-	Text  []byte
-	Layer int // 0 = full settings grid, 1 = reduced grid
+	Idx  []int // indices into alphabet
+	Name string
+	Text []byte
 }
 
 func fileName(idx []int) string {
@@ -90,27 +89,72 @@ func enumerateFiles(maxLen int) []smallFile {
 	return out
 }
 
-// reducedSettings is the sub-grid used for the longest files of a tier: every
-// backend, builder and batches, every worker count, every batch size and both
-// parallelism values occur at least once in each key layout.
-func reducedSettings(thorough bool) []setting {
+// Settings per file length ("layers"). The complete grid has 57 settings; the
+// longer layers of a tier get a sub-grid chosen by a fixed rotation over the
+// file's ordinal inside its layer, so that over a layer every setting is
+// applied to many files:
+//
+//	gridFull    all 57
+//	gridSizes2  CDB workers 1-3 + for BOTH key layouts one builder and all 8
+//	            (batch size x parallelism) combinations, worker counts rotating   (21)
+//	gridSizes1  the same for ONE key layout (alternating) + one of the 27
+//	            RocksDB settings of the other layout                             (13)
+//	gridOne     CDB workers 1-3 + one of the 54 RocksDB settings                  (4)
+type gridKind int
+
+const (
+	gridFull gridKind = iota
+	gridSizes2
+	gridSizes1
+	gridOne
+)
+
+func (g gridKind) String() string { return [...]string{"full", "sizes2", "sizes1", "one"}[g] }
+
+// layerGrids maps a number of lines to the grid used for files of that length.
+func layerGrids(thorough bool) []gridKind {
+	if thorough {
+		return []gridKind{gridFull, gridFull, gridFull, gridSizes2, gridOne}
+	}
+	return []gridKind{gridFull, gridFull, gridSizes1, gridOne}
+}
+
+func settingsFor(g gridKind, ordinal int) []setting {
+	if g == gridFull {
+		return allSettings()
+	}
 	out := []setting{{B: dnsfix.CDB, W: 1}, {B: dnsfix.CDB, W: 2}, {B: dnsfix.CDB, W: 3}}
-	for _, b := range []dnsfix.Backend{dnsfix.RDBv1, dnsfix.RDBv2} {
-		if thorough {
-			// the 4-line layer is 38 416 files: two compiles per key layout
-			if b == dnsfix.RDBv1 {
-				out = append(out, setting{B: b, W: 3, Bld: true}, setting{B: b, W: 2, BSize: 2, BPar: 2})
-			} else {
-				out = append(out, setting{B: b, W: 2, Bld: true}, setting{B: b, W: 3, BSize: 3, BPar: 1})
+	n := len(alphabet)
+	rot := ordinal + ordinal/n + ordinal/(n*n) + ordinal/(n*n*n) // decorrelate from the last line's index
+	layouts := []dnsfix.Backend{dnsfix.RDBv1, dnsfix.RDBv2}
+	sizes := func(b dnsfix.Backend, li int) {
+		out = append(out, setting{B: b, W: 1 + (rot+li)%3, Bld: true})
+		k := 0
+		for _, bs := range []int{1, 2, 3, 0} {
+			for _, bp := range []int{1, 2} {
+				out = append(out, setting{B: b, W: 1 + (rot+li+k)%3, BSize: bs, BPar: bp})
+				k++
 			}
-			continue
 		}
-		out = append(out,
-			setting{B: b, W: 2, Bld: true},
-			setting{B: b, W: 3, BSize: 1, BPar: 2},
-			setting{B: b, W: 2, BSize: 2, BPar: 1},
-			setting{B: b, W: 1, BSize: 3, BPar: 2},
-		)
+	}
+	oneOf := func(b dnsfix.Backend, r int) {
+		var all []setting
+		for _, s := range allSettings() {
+			if s.B == b {
+				all = append(all, s)
+			}
+		}
+		out = append(out, all[r%len(all)])
+	}
+	switch g {
+	case gridSizes2:
+		sizes(layouts[0], 0)
+		sizes(layouts[1], 1)
+	case gridSizes1:
+		sizes(layouts[rot%2], rot%2)
+		oneOf(layouts[1-rot%2], rot/2)
+	case gridOne:
+		oneOf(layouts[rot%2], rot/2)
 	}
 	return out
 }
@@ -219,29 +263,33 @@ type smallStats struct {
 
 // smallInputs is part (a): every file of at most maxLen alphabet lines.
 func smallInputs(r *vlib.Run, p *pool) {
-	lFull := r.Pick(2, 3) // files up to this length: the complete settings grid
-	lMax := r.Pick(3, 4)  // longer files up to this length: the reduced grid
+	grids := layerGrids(r.Thorough())
+	lMax := len(grids) - 1
 	files := enumerateFiles(lMax)
-	full, red := allSettings(), reducedSettings(r.Thorough())
+	full := allSettings()
+	used := map[string]int{} // setting -> files it was applied to
+	layerCount := make([]int, lMax+1)
+	layerCells := make([]int, lMax+1)
 	byName := map[string]int{}
-	var jobsFull, jobsRed []execJob
+	jobs := make([]execJob, len(files))
 	for i := range files {
 		byName[files[i].Name] = i
-		if len(files[i].Idx) <= lFull {
-			jobsFull = append(jobsFull, execJob{ID: i, Text: files[i].Text, Settings: full})
-		} else {
-			files[i].Layer = 1
-			jobsRed = append(jobsRed, execJob{ID: i, Text: files[i].Text, Settings: red})
+		l := len(files[i].Idx)
+		sets := settingsFor(grids[l], layerCount[l])
+		layerCount[l]++
+		layerCells[l] += len(sets)
+		for _, s := range sets {
+			used[s.String()]++
 		}
+		jobs[i] = execJob{ID: i, Text: files[i].Text, Settings: sets}
 	}
 	pl := plan{BuilderPerChild: 24, BuilderGCOff: true, OtherPerChild: 240}
-	outFull := p.run(jobsFull, pl)
-	outRed := p.run(jobsRed, pl)
+	outs := p.run(jobs, pl)
 
 	var st smallStats
 	fails := make([]map[string]verdict, len(files))
 	var nontrivial, rejectedFiles, multiValue, twoMaps int64
-	eval := func(jobs []execJob, outs [][]cellOutcome) {
+	{
 		for k, j := range jobs {
 			f := files[j.ID]
 			refs := map[dnsfix.Backend]refSummary{}
@@ -281,8 +329,6 @@ func smallInputs(r *vlib.Run, p *pool) {
 			}
 		}
 	}
-	eval(jobsFull, outFull)
-	eval(jobsRed, outRed)
 
 	// minimal-failing-case attribution: report (file, kind/setting) only if no
 	// file obtained by deleting one line fails in the same way.
@@ -319,13 +365,21 @@ func smallInputs(r *vlib.Run, p *pool) {
 	r.Add("distinct_nontrivial", nontrivial)
 	r.Set("small_alphabet_lines", len(alphabet))
 	r.Set("small_alphabet_rejected_lines", numRejectedInAlphabet)
-	r.Set("small_max_lines_full_grid", lFull)
-	r.Set("small_max_lines_reduced_grid", lMax)
+	var layers []string
+	for l := 0; l <= lMax; l++ {
+		layers = append(layers, fmt.Sprintf("%d lines: %d files x grid %q = %d compiles", l, layerCount[l], grids[l].String(), layerCells[l]))
+	}
+	r.Set("small_layers", layers)
+	r.Set("small_max_lines", lMax)
 	r.Set("small_files", len(files))
-	r.Set("small_files_full_grid", len(jobsFull))
-	r.Set("small_files_reduced_grid", len(jobsRed))
 	r.Set("small_settings_full_grid", len(full))
-	r.Set("small_settings_reduced_grid", len(red))
+	minUse := -1
+	for _, s := range full {
+		if u := used[s.String()]; minUse < 0 || u < minUse {
+			minUse = u
+		}
+	}
+	r.Set("small_min_files_per_setting", minUse)
 	r.Set("small_compiles", st.compiles)
 	r.Set("small_files_with_rejected_line", rejectedFiles)
 	r.Set("small_files_with_several_values_under_one_key", multiValue)
@@ -337,8 +391,8 @@ func smallInputs(r *vlib.Run, p *pool) {
 		an = append(an, a.Name+"="+a.Text)
 	}
 	r.Set("small_alphabet", an)
-	addRule(fmt.Sprintf("(a) every sequence (with repetition) of <=%d lines over a %d-line alphabet (%d of them rejected by the codec) is compiled by the real CDB and RocksDB compilers in each of %d settings (workers 1-3 x builder|batches x batch size 1,2,3,default x batch parallelism 1,2 x v1|v2 keys, plus CDB workers 1-3); sequences of %d lines use a %d-setting sub-grid that still contains every value of every dimension. Each produced store is dumped completely and compared, as a map key -> multiset of values, with Codec.ConvertLn applied line by line on one goroutine followed by Acc.MarshalMap and Features.MarshalMap; if the codec rejects a line every setting must return an error. A file is non-trivial if it has a rejected line, >=2 values under one key, or range points of two maps. Failures are reported only for files none of whose one-line deletions fails in the same way.",
-		lMax, len(alphabet), numRejectedInAlphabet, len(full), lMax, len(red)))
+	addRule(fmt.Sprintf("(a) every sequence (with repetition) of <=%d lines over a %d-line alphabet (%d of them rejected by the codec) is compiled by the real CDB and RocksDB compilers. Settings grid: workers 1-3 x builder|batches x batch size 1,2,3,default x batch parallelism 1,2 x v1|v2 keys, plus CDB workers 1-3 = %d settings. Per file length: %s (grid \"sizes2\" = CDB 1-3 + for both key layouts one builder and all 8 size x parallelism combinations with rotating worker counts; \"sizes1\" = the same for one key layout, alternating, plus one setting of the other layout; \"one\" = CDB 1-3 + one of the 54 RocksDB settings, rotating with the file ordinal); every setting is applied to at least %d files. Each produced store is dumped completely and compared, as a map key -> multiset of values (canonical hash; textual diff only for the report), with Codec.ConvertLn applied line by line on one goroutine followed by Acc.MarshalMap and Features.MarshalMap; if the codec rejects a line every setting must return an error. A file is non-trivial if it has a rejected line, >=2 values under one key, or range points of two maps. Failures are reported only for files none of whose one-line deletions fails in the same way.",
+		lMax, len(alphabet), numRejectedInAlphabet, len(full), strings.Join(layers, "; "), minUse))
 }
 
 func indent(s string) string {
